@@ -110,6 +110,21 @@ def opFsplit : Handler := fun args _ =>
     | _, _, _ => bad
   | _ => bad
 
+/-- `cli.fmp f p => g:e;…`: stdout of `rust-number-theory <config>` with `to_find = factorization-mod-p`.
+The binary draws from its own generator, so there is no history to replay: the answer goes through the
+oracle only (the factorization is unique up to order). -/
+def opCli : Handler := fun args impl =>
+  match args with
+  | [fs, ps] => match parseInts? fs, ps.toInt? with
+    | some f0, some p =>
+      if p ≤ 1 then bad else
+      let f := NTV.PolyG.fromRaw f0
+      ("-", if impl.startsWith "panic" then
+              (if (S.red p f).isEmpty then "skip:zero-polynomial" else "fail:panic-on-legal-input")
+            else judge p f impl)
+    | _, _ => bad
+  | _ => bad
+
 def ops : List (String × Handler) :=
-  [("pm.sqfree", opSqfree), ("pm.degree", opDegree), ("pm.fsplit", opFsplit), ("pm.factor", opFactor), ("pm.factor.same", opSame)]
+  [("cli.fmp", opCli), ("pm.sqfree", opSqfree), ("pm.degree", opDegree), ("pm.fsplit", opFsplit), ("pm.factor", opFactor), ("pm.factor.same", opSame)]
 end NTV.Driver.C08
